@@ -398,8 +398,7 @@ class OpGen:
         """After a restart all zero-length content shares one identity on
         disc; rm_file on such a name is three-valued (only C07 goes there)."""
         m = self.m
-        if node.kind != 'file':
-            return False
+        return False    # since the fix 'zero-length files keep an identity of their own' a restart no longer merges them
         if node.blob is None:
             return node.gen < m.generation
         if isinstance(node.blob, int):
